@@ -30,7 +30,7 @@ func (r *recStore) DeleteRange(a, b uint64) error {
 func dummyRaft(store raft.LogStore, stable raft.StableStore, snaps raft.SnapshotStore) (*raft.Raft, error) {
 	w := &World{}
 	n := &Node{id: 0, addr: "n0", sid: "n0"}
-	tr := &VTrans{w: w, n: n, cons: make(chan raft.RPC, 4)}
+	tr := &VTrans{w: w, n: n, cons: make(chan raft.RPC, 4), noNet: true}
 	conf := (&World{sc: &Scenario{Nodes: voters(1)}}).baseConfig(0)
 	return raft.VerifNewRaftNoStart(conf, &VFSM{}, store, stable, snaps, tr)
 }
